@@ -274,7 +274,8 @@ def scan_verdict_message(repo):
     return ok, "verdict message %r %s both the expected and the actual count" % (msg, "names" if ok else "does NOT name")
 
 
-STATIC["c06_message_names_both_numbers"] = dict(props=["C06"], fn=scan_verdict_message)
+STATIC["c06_message_names_both_numbers"] = dict(props=["C06"], fn=scan_verdict_message, obligation="C06.verdict.message",
+                                                 replay_static=lambda verif: _replay_bin("c06_message", [], verif))
 
 # ------------------------------------------------------------------------------------------------
 # Verus units
